@@ -21,12 +21,15 @@ TIMES = [0, 1, 2, 3]
 VARIANTS = {
     "F": {1: ["ref", "K"], 2: ["bin", "+", ["ref", "X"], ["num", 1.0]]},
     "X": {1: ["bin", "*", ["ref", "K"], ["num", 2.0]], 2: ["bin", "+", ["ref", "K"], ["num", 10.0]]},
-    "Y": {1: ["bin", "+", ["ref", "S"], ["ref", "X"]], 2: ["bin", "-", ["bin", "*", ["ref", "S"], ["num", 2.0]], ["ref", "X"]]},
+    "Y": {1: ["bin", "+", ["ref", "S"], ["ref", "X"]], 2: ["bin", "-", ["bin", "*", ["ref", "S"], ["num", 2.0]], ["ref", "X"]],
+          3: ["bin", "+", ["ref", "S"], ["ref", "W"]]},
+    # W exists from the start but has no equation until a history gives it one (an undefined converter evaluates to 0.0)
+    "W": {0: ["num", 0.0], 1: ["bin", "*", ["ref", "K"], ["num", 3.0]], 2: ["bin", "+", ["ref", "X"], ["num", 1.0]]},
 }
 INITS = {"one": ["num", 1.0], "seven": ["num", 7.0], "K": ["ref", "K"]}
 KVALS = [2.0, 5.0]
 
-RUNSETS = [["Y"], ["S", "F"], ["X", "Y", "S"], ["Y", "X"], ["F", "K", "Y", "S", "X"]]
+RUNSETS = [["Y"], ["S", "F"], ["X", "Y", "S"], ["Y", "X"], ["F", "K", "Y", "S", "X", "W"]]
 
 
 def spec_of(defs):
@@ -35,14 +38,18 @@ def spec_of(defs):
         "X": {"kind": "converter", "eq": VARIANTS["X"][defs["X"]]},
         "F": {"kind": "flow", "eq": VARIANTS["F"][defs["F"]]},
         "S": {"kind": "stock", "init": INITS[defs["init"]], "eq": ["ref", "F"]},
+        "W": {"kind": "converter", "eq": VARIANTS["W"][defs.get("W", 0)]},
         "Y": {"kind": "converter", "eq": VARIANTS["Y"][defs["Y"]]},
     }}
 
 
 class Impl:
     def __init__(self):
-        self.defs = {"K": 2.0, "X": 1, "F": 1, "Y": 1, "init": "one"}
-        self.m, self.env = refsd.build_model(spec_of(self.defs), order=["K", "X", "F", "S", "Y"])
+        self.defs = {"K": 2.0, "X": 1, "F": 1, "Y": 1, "init": "one", "W": 0}
+        sp = spec_of(self.defs)
+        del sp["elements"]["W"]
+        self.m, self.env = refsd.build_model(sp, order=["K", "X", "F", "S", "Y"])
+        self.env["W"] = self.m.converter("W")      # created, never given an equation
         self.scenario = None
 
 
@@ -54,9 +61,10 @@ class System:
 
     def enabled(self, ref):
         ops = []
-        for el in ("F", "X", "Y"):
+        for el in ("F", "X", "Y", "W"):
             for v in (1, 2):
                 ops.append(["set_eq", el, v])
+        ops.append(["set_eq", "Y", 3])
         for i in INITS:
             ops.append(["set_init", i])
         for k in KVALS:
@@ -92,7 +100,7 @@ class System:
                     viol.append(("stale/eval/%s" % op[1], "%s(%d) = %r, fresh model gives %r; definitions %r" % (op[1], op[2], v, w, ref)))
             elif k in ("eval_all", "eval_all_desc"):
                 r = self._ref(ref)
-                names = ["K", "X", "F", "S", "Y"]
+                names = ["K", "X", "F", "S", "W", "Y"]
                 ts = TIMES if k == "eval_all" else TIMES[::-1]
                 if k == "eval_all_desc":
                     names = names[::-1]
@@ -137,7 +145,7 @@ class System:
 
     def key(self, impl, ref):
         memo = tuple(sorted((n, tuple(sorted((float(t), round(float(v), 9)) for t, v in d.items())))
-                            for n, d in impl.m.memo.items() if n in ("K", "X", "F", "S", "Y")))
+                            for n, d in impl.m.memo.items() if n in ("K", "X", "F", "S", "Y", "W")))
         return (tuple(sorted(ref.items())), memo)
 
 
